@@ -29,6 +29,7 @@ from .spec import (
     set_list,
     set_maps,
     subclasses,
+    class_mro,
     unview,
     view,
     ObjView,
@@ -1770,18 +1771,27 @@ class Engine:
             dv = DictView(s, recv.z, ty.key, ty.val)
             nh, has, nv, val = dict_maps(s, ty.key, ty.val)
             if name == "setdefault" and len(pos) == 2:
+                # two paths: the key is present (nothing is written, the stored value comes back) or it is not (the
+                # default is stored and comes back) - simpler terms than one conditional value
                 kz = pack(pos[0], ty.key)
                 dz = pack(self.coerce(s, pos[1], ty.val, "setdefault", line, exc), ty.val)
                 known = has[recv.z][kz]
-                res = z3.If(known, val[recv.z][kz], dz)
-                s.heap[nh] = z3.Store(has, recv.z, z3.Store(has[recv.z], kz, z3.BoolVal(True)))
-                s.heap[nv] = z3.Store(val, recv.z, z3.If(known, val[recv.z], z3.Store(val[recv.z], kz, dz)))
                 szn = f"DSZ.{sort_key(ty.key)}.{sort_key(ty.val)}"
-                size = s.hmap(szn, smt.Int, smt.Int)
-                s.heap[szn] = z3.Store(size, recv.z, size[recv.z] + z3.If(known, 0, 1))
+                out = []
+                for s2, side in self.fork(s, known, line):
+                    nh2, has2, nv2, val2 = dict_maps(s2, ty.key, ty.val)
+                    if side:
+                        out.append((s2, unpack(ty.val, z3.simplify(val2[recv.z][kz]))))
+                        continue
+                    size = s2.hmap(szn, smt.Int, smt.Int)
+                    s2.heap[nh2] = z3.Store(has2, recv.z, z3.Store(has2[recv.z], kz, z3.BoolVal(True)))
+                    s2.heap[nv2] = z3.Store(val2, recv.z, z3.Store(val2[recv.z], kz, dz))
+                    s2.heap[szn] = z3.Store(size, recv.z, size[recv.z] + 1)
+                    out.append((s2, unpack(ty.val, dz)))
+                # the dict is (possibly) written: recorded on every path, so that loop discovery sees it
                 for nm in (nh, nv, szn):
                     self.note_write(nm, recv.z)
-                return [(s, unpack(ty.val, res))]
+                return out
             if name == "values" and not pos and not kw:
                 # d.values(): a list each of whose elements is the value stored under some present key (which key,
                 # how many and in which order is not modelled: code that depends on that cannot be verified)
@@ -1911,6 +1921,7 @@ class Engine:
                 if oc.kind == "normal":
                     for lbl, f in conj(post(NS(oc.st, {}), before, self.pre_ns)):
                         self.oblige(oc.st, f"after[{label}][{lbl}]", "post", f, stmt.lineno)
+                        oc.st.assume(f)  # proved here, used from here on (cut)
             return outs
         return m(stmt, st)
 
@@ -2107,6 +2118,14 @@ class Engine:
         if isinstance(t, ast.UnaryOp) and isinstance(t.op, ast.Not):
             t = t.operand
             positive = not side
+        if (isinstance(t, ast.Call) and isinstance(t.func, ast.Name) and t.func.id == "isinstance" and len(t.args) == 2
+                and isinstance(t.args[0], ast.Name) and isinstance(t.args[1], ast.Name) and positive):
+            # isinstance(x, Cls) on a reference to a superclass: x is statically a Cls from here on
+            v = s.lookup(t.args[0].id)
+            cname = t.args[1].id
+            if v is not None and isinstance(v.ty, TRef) and cname in CLASSES and cname != v.ty.cls and v.ty.cls in class_mro(cname):
+                s.assign(t.args[0].id, Val(TRef(cname), v.z))
+            return
         if isinstance(t, ast.Name):
             name = t.id
         elif isinstance(t, ast.NamedExpr):
